@@ -53,10 +53,13 @@ type FS struct {
 	eligible   int // counter over fault-eligible operations
 	Fired      map[string]int
 	enospc     bool
+	enospcLeft int
 	active     *Fault // persistent / burst fault in progress
 	activeLeft int
 	FaultSeen  int // number of injected errors so far
 	lastFaultOp int
+
+	Eligible []string // class of every fault-eligible operation, in order
 
 	mutating int // count of mutating operations (C18)
 	open     map[*simFile]bool
@@ -86,7 +89,7 @@ func (fs *FS) MarkOp(mark string, j int, synced bool) {
 // fault decides whether the fault-eligible operation of the given class fails.
 // class: write | sync | stat | open | remove | readdir
 func (fs *FS) fault(class string) *Fault {
-	if len(fs.faults) == 0 && fs.active == nil {
+	if fs.Quiet {
 		return nil
 	}
 	if t := simrt.Cur(); t != nil && t.Driver {
@@ -96,6 +99,10 @@ func (fs *FS) fault(class string) *Fault {
 	}
 	idx := fs.eligible
 	fs.eligible++
+	fs.Eligible = append(fs.Eligible, class)
+	if len(fs.faults) == 0 && fs.active == nil {
+		return nil
+	}
 	if fs.active != nil {
 		f := fs.active
 		if (f.Count < 0 && f.Until > 0 && idx >= f.Until) || (f.Count >= 0 && fs.activeLeft <= 0) {
@@ -222,9 +229,13 @@ func (f *simFile) WriteAt(p []byte, off int64) (int, error) {
 	simrt.Yield(siteFileWrite)
 	fs := f.fs
 	fs.mutating++
+	if fs.enospc && fs.enospcLeft <= 0 {
+		fs.enospc = false // space was freed
+	}
 	if fs.enospc {
 		// disk full: extending writes fail until space is freed
 		if fi, err := f.f.Stat(); err == nil && off+int64(len(p)) > fi.Size() {
+			fs.enospcLeft--
 			fs.fired("write-enospc-cont")
 			fs.rec(FileOp{Kind: "WRITE", File: f.name, Off: off, Len: 0, Err: "ENOSPC", Fault: "write-enospc"})
 			return 0, errENOSPC
@@ -251,6 +262,7 @@ func (f *simFile) WriteAt(p []byte, off int64) (int, error) {
 			es := "short"
 			if flt.Kind == "write-enospc" {
 				fs.enospc = true
+				fs.enospcLeft = 4 + flt.Frac%20
 				e, es = errENOSPC, "ENOSPC"
 			}
 			fs.rec(FileOp{Kind: "WRITE", File: f.name, Off: off, Data: append([]byte{}, p[:n]...), Len: n, Err: es, Fault: flt.Kind})
@@ -303,6 +315,48 @@ func (f *simFile) Close() error {
 	f.closed = true
 	delete(f.fs.open, f)
 	return f.f.Close()
+}
+
+var fsRegistry []*FS
+
+func registerFS(fs *FS) {
+	fsRegistry = append(fsRegistry, fs)
+	simrt.Hooks = dispatchHooks
+}
+
+func unregisterFS(fs *FS) {
+	for i, f := range fsRegistry {
+		if f == fs {
+			fsRegistry = append(fsRegistry[:i], fsRegistry[i+1:]...)
+			break
+		}
+	}
+}
+
+func fsFor(path string) *FS {
+	d := filepath.Clean(path)
+	for _, f := range fsRegistry {
+		if d == f.Dir || filepath.Dir(d) == f.Dir {
+			return f
+		}
+	}
+	return nil
+}
+
+var dispatchHooks = simrt.OSHooks{
+	Remove: func(name string) error {
+		if f := fsFor(name); f != nil {
+			return f.Hooks().Remove(name)
+		}
+		return os.Remove(name)
+	},
+	ReadDir: func(name string) ([]os.FileInfo, error) {
+		if f := fsFor(name); f != nil {
+			return f.Hooks().ReadDir(name)
+		}
+		return (&FS{Quiet: true, Fired: map[string]int{}}).Hooks().ReadDir(name)
+	},
+	Open: func(name string) (*os.File, error) { return os.Open(name) },
 }
 
 // Hooks returns the directory-operation hooks for simrt.
